@@ -29,12 +29,12 @@ Definition recv_and (links : list (option nat)) (iin_recv : list bool) (j : nat)
 Definition set_proc_input (ps : list pstate) (p k : nat) (v : N) (b : bool) : list pstate :=
   match nth_error ps p with
   | Some s => upd p (mkP (pc s) (regs s) (upd k v (inputs s)) (upd k b (in_valid s)) (in_recv s)
-                         (outputs s) (out_valid s) (out_recv s) (deferred s)) ps
+                         (outputs s) (out_valid s) (out_recv s) (deferred s) (phases s)) ps
   | None => ps end.
 Definition set_proc_outrecv (ps : list pstate) (p k : nat) (b : bool) : list pstate :=
   match nth_error ps p with
   | Some s => upd p (mkP (pc s) (regs s) (inputs s) (in_valid s) (in_recv s)
-                         (outputs s) (out_valid s) (upd k b (out_recv s)) (deferred s)) ps
+                         (outputs s) (out_valid s) (upd k b (out_recv s)) (deferred s) (phases s)) ps
   | None => ps end.
 
 Definition forward (t : bm) (v : vm) : vm :=
